@@ -109,6 +109,9 @@ def main(argv):
         units.append(rep)
         if rep.error:
             undecided.append("%s: %s" % (uname, rep.error))
+        unexpected = [x for x in getattr(rep, "unreached", []) if not any(p in x for p in spec.expected_unreached)]
+        if unexpected:
+            undecided.append("%s: vacuity guard: no feasible path reaches %s" % (uname, "; ".join(unexpected[:3])))
         for o, r in zip(rep.obligations, rep.results):
             tags = o.meta.get("props")
             if tags and prop not in tags:
@@ -252,7 +255,7 @@ def main(argv):
             "checker_cmd": "python3-vt /verif/checker.py %s --tier %s  (VC generation by pyvc from %s/icontract/*.py; z3 %s)" % (prop, tier, REPO, z3.get_version_string()),
             "trusted_base": sorted(["external: %s -- %s" % kv for kv in REG.externals.items()] + ["assumption: " + x for x in REG.assumptions]
                                    + ["pyvc itself (VC generator) and its model of Python semantics (DESIGN.md 3-4)", "z3 %s" % z3.get_version_string()]),
-            "units": [dict(rep.unit.describe(), paths=rep.paths, pruned_infeasible=rep.pruned, obligations=len(rep.obligations),
+            "units": [dict(rep.unit.describe(), paths=rep.paths, pruned_infeasible=rep.pruned, unreached_statements=getattr(rep, "unreached", []), obligations=len(rep.obligations),
                            symex_s=round(rep.symex_s, 2), solve_s=round(rep.solve_s, 2), error=rep.error) for rep in units],
             "backends": backends,
             "solver_time_s": round(sum(r.get("ms", 0) for _, _, r in all_obls) / 1000.0, 1),
